@@ -496,7 +496,14 @@ Proof. unfold p_exponent. tr. Qed.
 Hint Resolve tr_exponent : safe.
 
 Lemma tr_double_constant : trans P P (p_double_constant lf).
-Proof. unfold p_double_constant. tr. Qed.
+Proof.
+  unfold p_double_constant. apply trans_map_res, trans_recognize.
+  apply trans_seq_same; [tr|intro]. apply trans_seq_same; [tr|intro].
+  apply trans_alt. repeat apply Forall_cons; try apply Forall_nil.
+  - Show. tr.
+  - tr.
+  - tr.
+Qed.
 Hint Resolve tr_double_constant : safe.
 
 Lemma tr_attribute : trans P P p_attribute.
